@@ -11,7 +11,12 @@
                   (types text, flex, container, tag, image, image_ascii, glyph, ref) are trees of this type;
                   "color" cannot be deserialised at all, custom handler types are whatever they return.
      ct, Valid    BoxConstraint with min <= max per axis (any extents, including 0 and 1)
-     vctx         glyph capability, char widths, pixels per cell
+     vctx         glyph capability, char widths, pixels per cell (ppc_h, ppc_w: any numbers, 0 included),
+                  v_share: the flex share as a function of (positive factors, index of the flex child,
+                  remaining space) -- ANY function: every theorem below holds for every share function, hence
+                  for whatever binary64 arithmetic yields for the factors that pass the filter (finite, > 0;
+                  all other factors make the child a non-flex child) --, v_frag: the images of the nine
+                  fragments of a Frame border -- any nine images
      layout       View::layout: outcome of a layout tree (Panic where the code would panic)
      render       View::render over a surface `sh` of a backing slice, through Layout::apply_to
      Rep H W sh w (C07) `sh` is the surface of window `w` of an H x W canvas (plain, offset, strided,
@@ -25,10 +30,13 @@ Local Open Scope N_scope.
 
 (* (1) Layout is total: for every view tree, both glyph settings (any context) and every valid
    constraint -- any extents, usize::MAX included: the model saturates where the repaired code
-   saturates -- View::layout returns a layout tree; it never panics.  Flex factors of the model are
-   positive numerators over a common denominator; for those the f64 share computation of
-   flex_layout is exact as long as remain * factor < 2^53 (assumption, see design/C10.md); for
-   other doubles the share is whatever f64 yields, capped by the remaining space. *)
+   saturates -- View::layout returns a layout tree; it never panics.  The share a flex child is
+   offered is `min (v_share vc factors idx remain) remain` for an arbitrary v_share (the repaired code
+   caps `(remain * (flex / total)).round() as usize` by the remaining space; the intermediate doubles
+   need not be finite -- 1.0 / 1e-320 is +inf -- and the `as usize` cast maps NaN to 0 and +inf to
+   usize::MAX, which is why the cap, not the arithmetic, bounds the share).  The correspondence
+   check instantiates v_share with exact_share (round half up of remain * f / total) for factors
+   that are small dyadic numbers, where binary64 is exact. *)
 Theorem C10_layout_total : forall (vc : vctx) (v : vtree) (c : ct),
   Valid c -> exists t, layout vc v c = Ok t.
 Proof. exact layout_total. Qed.
@@ -70,10 +78,13 @@ Proof. intros H W vc v c sh w s Hmax Hv Hrep Hlen. exact (layout_render_total H 
 
 (* (5) Every leaf paints exactly the rectangle the layout tree records for it.  `paints` walks view
    and layout tree together and computes, in the plain-matrix window algebra of C07, the window each
-   probe leaf must be handed: the (position, size) rectangles of the layout nodes on its path, cut one
-   out of the other and clipped (win_apply).  A completed rendering pass has called the probes it
-   reaches in that order, each with a surface that IS that window (Rep); by C07 the probe's fill then
-   rewrites exactly the cells of that window. *)
+   leaf must be handed: the (position, size) rectangles of the layout nodes on its path, cut one
+   out of the other and clipped (win_apply).  Leaves of EVERY kind are listed: text (tag LEAF_TAG+1),
+   str (+2), scroll bar (+6, unless its layout has no extent along its axis: then it returns before
+   touching the surface), fill (+10), image (+12), glyph (+13), surface view (+15), half-block image
+   (+16) and the harness's probe (its own id); unit and Option::None draw nothing.  A completed rendering
+   pass has called the leaves it reaches in that order, each with a surface that IS that window (Rep);
+   by C10_leaf_confined what the leaf changes lies inside that window. *)
 Theorem C10_paint_rect : forall (H W : nat) (vc : vctx) (v : vtree) (t : ltree) (sh : shape) (w : window) (s s' : rst),
   (Z.of_nat (Nat.max H W) <= i64_max)%Z -> Rep H W sh w -> (H * W <= length (r_data s))%nat ->
   render vc v t sh s = Ok s' ->
@@ -109,12 +120,12 @@ Theorem C10_text_cap_exact : forall (vc : vctx) (cells : list ccell) (wraps : bo
   text_size (v_r vc) cells wraps (N.to_nat maxw).
 Proof. exact text_size_cap. Qed.
 
-(* The defects repaired in the crate (division by zero, underflow, overflows, infinite share, endless
-   loops) are documented by failing inputs replayed on the unrepaired code: corpus/C10/*.jsonl and
+(* The defects repaired in the crate (division by zero, underflow, overflows, infinite share and infinite
+   factor, endless loops, zero-width frame stroke) are documented by failing inputs replayed on the unrepaired code: corpus/C10/*.jsonl and
    known_findings.d/C10.json. *)
 
 (* ---------- non-vacuity ---------- *)
-Definition ex_vc : vctx := mkV (mkCtx true [] dfa0 []) 20 10.
+Definition ex_vc : vctx := mkV (mkCtx true [] dfa0 []) 20 10 exact_share (fun i => 1000 + N.of_nat i).
 Definition ex_tree : vtree :=
   VFlex Hor JAround
     [(VContainer (VProbe 1 2 3) face0 AShrink ACenter (mkM 1 0 UMAX 1) 0 4, None, None, AEnd);
@@ -147,6 +158,27 @@ Example C10_render_nonvacuous :
       match render ex_vc ex_tree t sh (mkR (repeat (mkCell face0 (KChar 32)) 128) []) with
       | Ok s => map fst (r_log s) = [1; 2] /\
                 map fst (paints true ex_tree t (win_chain (win_root 8 16) [OpT; OpView (Rng 1 (-1)) (From 1)])) = [1; 2]
+      | _ => False
+      end
+  | _ => False
+  end.
+Proof. vm_compute. split; reflexivity. Qed.
+
+(* every leaf kind appears in the log, in drawing order, each with the window `paints` computes *)
+Definition ex_leaves : vtree :=
+  VFlex Ver JStart
+    [(VText [mkCell face0 (KChar 97)] true, None, None, AStart); (VStr [98], None, None, AStart);
+     (VFill 3, Some 1%positive, None, AStart); (VImage 5 40 20, None, None, AStart);
+     (VGlyph 7 1 2 [99], None, None, AStart); (VSurface 1 1 (mkCell face0 (KChar 100)), None, None, AStart);
+     (VImageAscii 2 2 9, None, None, AStart); (VScrollBar Hor face0 0 1 2, None, None, AStart);
+     (VProbe 4 1 1, None, None, AStart); (VUnit, Some 1%positive, None, AStart)].
+
+Example C10_paint_all_leaves_nonvacuous :
+  match layout ex_vc ex_leaves (mkCt 0 0 12 9) with
+  | Ok t =>
+      match render ex_vc ex_leaves t (of_size 12 9) (mkR (repeat (mkCell face0 (KChar 32)) 108) []) with
+      | Ok s => map fst (r_log s) = map (fun k => LEAF_TAG + k) [1; 2; 10; 12; 13; 15; 16; 6] ++ [4] /\
+                map fst (paints true ex_leaves t (win_root 12 9)) = map fst (r_log s)
       | _ => False
       end
   | _ => False
